@@ -5,7 +5,7 @@ from collections import deque
 from lzlint.framework import rule
 from lzlint.core import (Prov, Callee, callee_of, strip_generics, last_seg, expr_walk, expr_str, op_local, op_place,
                          const_val, guards_of, norm_cmp, switch_edges, self_field_of)
-from rules.io import slice_base, buf_alias_locals, is_trait_call, WRITE_TRAITS, READ_TRAITS
+from rules.io import slice_base, buf_alias_locals, is_trait_call, WRITE_TRAITS, READ_TRAITS, derives_from_param
 
 
 def methods_of(F, adt):
@@ -765,3 +765,61 @@ def formula_twin(ctx):
     else:
         ctx.violation('lzma2-dict-prop:lower-bound', wf.loc(0), 'the writer no longer rejects dictionary sizes below 4 KiB (bounds found: %s): '
                       'the smallest encodable size is 4 KiB, so the header would declare a different size' % lows)
+
+
+@rule('STAGING-APPEND', ['C08', 'C02'], floor=2)
+def staging_append(ctx):
+    """The buffer in which a splitting writer collects caller data for the current unit is only ever appended
+    to (`extend_from_slice` with a slice of the caller's buffer) or handed over whole (`mem::take`); it is
+    never assigned over outside the constructor, because bytes from an earlier short write may still be in
+    it (they would vanish from a stream that is otherwise perfectly valid)."""
+    F = ctx.facts
+    n = 0
+    for w in F.fns:
+        if not (w.impl and last_seg(w.impl.get('trait')) == 'Write' and w.name == 'write' and w.self_adt):
+            continue
+        pw = Prov(w)
+        staging = set()
+        for bi, t, c in w.calls():
+            if c.is_('Vec::extend_from_slice') and len(t['args']) == 2:
+                a0 = pw.operand(t['args'][0], 0, '%d:T' % bi)
+                a1 = pw.operand(t['args'][1], 0, '%d:T' % bi)
+                base = a0[1] if a0[0] == 'ref' else a0
+                sf = self_field_of(base)
+                if sf and len(sf) == 1 and derives_from_param_(w, pw, a1):
+                    staging.add(sf[0])
+        for fld in staging:
+            # handed over whole somewhere?
+            taken = any(c.is_('mem::take', 'mem::replace') and t['args'] and
+                        (self_field_of(Prov(g).operand(t['args'][0], 0, '%d:T' % bi)[1]
+                                       if Prov(g).operand(t['args'][0], 0, '%d:T' % bi)[0] == 'ref' else ('none',)) == (fld,))
+                        for g in F.fns if g.self_adt == w.self_adt for bi, t, c in g.calls())
+            if not taken:
+                continue
+            n += 1
+            key = '%s.%s:append-or-take-only' % (last_seg(w.self_adt), fld)
+            bad = []
+            for g in F.fns:
+                if g.self_adt != w.self_adt or g.kind == 'closure':
+                    continue
+                pg = None
+                for bi, si, name, rv in self_field_stores(g):
+                    if name != fld:
+                        continue
+                    pg = pg or Prov(g)
+                    e = pg.rvalue(rv, 0, '%d:%d' % (bi, si))
+                    if e[0] == 'call' and e[1].split('::')[-1] in ('new', 'with_capacity', 'default'):
+                        continue
+                    bad.append((g, bi, si, expr_str(e)[:60]))
+            if bad:
+                g, bi, si, txt = bad[0]
+                ctx.violation(key, g.loc(bi, si), '%s assigns `self.%s = %s`: whatever an earlier, shorter write left in the unit buffer is '
+                              'overwritten and silently missing from the output' % (g.key, fld, txt))
+            else:
+                ctx.ok(key, w.loc(0), 'only extended with caller data and taken whole')
+    if n == 0:
+        ctx.anchor_missing('unit staging buffer of the splitting writers')
+
+
+def derives_from_param_(fn, prov, e):
+    return any(derives_from_param(fn, prov, e, i) for i in range(1, fn.arg_count + 1) if fn.local_ty(i).replace(' ', '') == '&[u8]')
